@@ -206,16 +206,16 @@ class DataFrameSchemaBackend(PandasSchemaBackend):
         check_passed = []
         # schema-component-level checks
         for schema_component in schema_components:
-            # make sure the schema component mutations are reverted after
-            # validation
+            is_index = schema_component is schema.index
+            # validate with a shallow copy of the schema component: its dtype
+            # and coerce attributes are overridden below and the schema itself
+            # (possibly shared with other threads) must not change
+            schema_component = copy.copy(schema_component)
             _orig_dtype = schema_component.dtype
             _orig_coerce = schema_component.coerce
 
             try:
-                if (
-                    schema.dtype is not None
-                    and schema_component is not schema.index
-                ):
+                if schema.dtype is not None and not is_index:
                     # override column dtype with dataframe dtype (the
                     # dataframe dtype does not apply to the index)
                     schema_component.dtype = schema.dtype  # type: ignore
@@ -391,16 +391,14 @@ class DataFrameSchemaBackend(PandasSchemaBackend):
                 or col_name in check_obj
                 or col_name in column_info.regex_match_patterns
             ) and col_name not in column_info.absent_column_names:
-                # validate with shallow copies of the schema components:
-                # their name, dtype and coerce attributes are overridden
-                # during validation and the schema itself must not change
-                col = copy.copy(col)
                 if col.name != col_name:
+                    # rename a shallow copy, the schema itself must not change
+                    col = copy.copy(col)
                     col.name = col_name
                 schema_components.append(col)
 
         if schema.index is not None:
-            schema_components.append(copy.copy(schema.index))
+            schema_components.append(schema.index)
         return schema_components
 
     ###########
